@@ -175,9 +175,9 @@ fn fam_arith(ctx: &mut Context, rng: &mut Rng) -> TransitionSystem {
     let x = ctx.bv_symbol("x", w);
     // the step: a constant, or one of 2 / 4 constants chosen by an input (then the initial state has
     // several successors and the restore loop needs several literals to keep them all out)
-    let step = match rng.below(3) {
+    let step = match rng.below(5) {
         0 => lit(ctx, w, rng.range(1, max)),
-        1 => {
+        1 | 2 => {
             let sel = ctx.bv_symbol("sel", 1);
             sys.add_input(ctx, sel);
             let a = lit(ctx, w, rng.range(1, max));
@@ -1056,12 +1056,19 @@ struct Job {
 }
 
 fn configs(tier_runs: &str) -> Vec<RunCfg> {
-    // "z3:0,1,2;cvc5:0,1"
+    // "z3:0,1,2;cvc5:0,1"; "z3+:0,4" = with unsat-core generalisation only
     let mut out = vec![];
     for part in tier_runs.split(';') {
         let (solver, seeds) = part.split_once(':').expect("runs syntax solver:seed,seed;...");
+        let (solver, only_on) = match solver.strip_suffix('+') {
+            Some(s) => (s, true),
+            None => (solver, false),
+        };
         for s in seeds.split(',') {
             for gen_on in [true, false] {
+                if only_on && !gen_on {
+                    continue;
+                }
                 if solver == "pushpop" && gen_on {
                     continue; // the profile has no get-unsat-assumptions: generalisation cannot be enabled
                 }
